@@ -246,6 +246,30 @@ ADDED3 = {
     'C20': 'And: the negation used for the exit condition of a loop negates: the node ~e or the dual connective over negated parts (P5). Substitution under a binder refuses capture (P6); the HOL form of each binary operator has the table of that operator over both operands (P7).',
 }
 
+# rules of rounds 6 and 7 and of the defects repaired after them (DESIGN.md section 12, 13)
+ADDED4 = {
+    'C01': 'Rounds 6-7: a primitive rule takes a premise apart only behind a head test of that proposition (K17); the type of a bound variable is looked up only for an index that is neither negative nor too large (K18).',
+    'C02': 'Rounds 6-7: each kind of step takes its justification from the checking theory, the dispatch table or the registered macro (P12).',
+    'C03': 'Rounds 6-7: the incremental type matcher behind Term.subst is exact (I9); the type-matching loop of a substitution runs over the schematic variables themselves, not one per name (I10).',
+    'C04': 'Rounds 6-7: closing steps run over the same sequence in evaluation and expansion (M16); an invented hypothesis is the assumed one under every assignment of the atomic tests (M17, decision tables); both divide the argument list alike (M18); numerals compared by value are pinned to one type (M19).',
+    'C05': 'Rounds 6-7: an exact evaluator\'s result is never used as a truth value (T9); the numeral leaves of nat_eval are non-negative integers (T10).',
+    'C06': 'Rounds 6-7: SymPy solution sets are compared as whole sets (S4) and natural-number subtraction is not read as ordinary subtraction (S5); kinds of leaf translated to a Z3 constant of the same name are the kinds binders avoid, one per name (Z9); every operand of the translation is a Z3 term - numerals become Z3 values, no equation between declarations (Z10); one type per variable name (Z11).',
+    'C07': 'Rounds 6-7: context managers restore global state in a finally (W7); a numeral is rated an atom only when not negative (W8).',
+    'C08': 'Rounds 6-7: context managers restore global state in a finally (U9); the occurs check is made for every member of the class whose reachability set is extended (U10).',
+    'C09': 'Rounds 6-7: a passed instantiation is replaced by an empty one only when it is None (N10); nothing that can bind the variable runs between the unbound-test and the store (N11); a part of the target is assigned only after the bound-variable test (N12); stand-ins for bound variables avoid the variables of assigned terms (N13).',
+    'C10': 'Rounds 6-7: a sweep hands back a node\'s result only after asking whether it changed the term (V10); a reflexive answer never rests on a comparison between two views of the term (V11).',
+    'C11': 'Rounds 6-7: the collectors of constants / variables remember items, not names (D9); a generated predicate variable P :: D => bool is applied only to variables of type D (D10).',
+    'C12': 'Rounds 6-7: context managers restore global state in a finally (L11); every item of the file is compared with the limit before anything else decides about it (L12).',
+    'C13': 'Rounds 6-7: a tactic states the subgoal with the conversion its macro uses (A12); the introduction tactic makes one assume line per antecedent (A13); line numbers taken before a removal are not used after it, and only gaps are closed (A14).',
+    'C14': 'Rounds 6-7: parameters are parsed over the variables of the goal line (S8); a goal found already proved is closed by the line that proves it (S9); the closing walks of apply_tactic / introduction keep their line numbers valid (S10); a step offered from the values of numerals pins their type (S11).',
+    'C15': 'Rounds 6-7: backtracking removes every assignment above the level it reports (X11); every clause is examined in propagation (X3); the constants true / false of the Tseitin encoding become unit clauses (X12).',
+    'C16': 'Rounds 6-7: a hash-bucket entry is used only after its key was compared (O8); a direct contradiction rests on strict comparisons only (O9); a new row without variables is decided by its constant before it is filed (O10).',
+    'C17': 'Rounds 6-7: an entered application equation stays in lookup / use lists (G2); the class list of the surviving representative takes over exactly the re-pointed members (G9).',
+    'C18': 'Rounds 6-7: arguments and premises of a reconstructed step come from the step, not from the traversal\'s running state (R23); on every accepting path of a two-sided pattern helper each named part of the right-hand side is constrained (R24); the bind rule tests that the new bound variables are not free on the left (R25).',
+    'C19': 'Rounds 6-7: every negative constant exponent takes the reciprocal case in interval arithmetic (E8); a singular end of an interval is approached from inside (E9); an operand of ^ that is a sum, product or quotient stands in its own parentheses, because Python gives ^ a lower precedence (E10).',
+    'C20': 'Rounds 6-7: keyword forms printed with bare operands are read with every operand at the widest level (P8).',
+}
+
 
 def main():
     checks = []
@@ -257,6 +281,8 @@ def main():
             text = text + ' ' + ADDED2[pid]
         if pid in ADDED3:
             text = text + ' ' + ADDED3[pid]
+        if pid in ADDED4:
+            text = text + ' ' + ADDED4[pid]
         checks.append({
             'property_id': pid,
             'quick_cmd': './check %s --tier quick' % pid,
